@@ -30,7 +30,14 @@ TRUSTED = ['Model/TracePipeline.lean written statement by statement like PyKdebu
            'their own properties (C05/C07/C08/C20, C12, C15)',
            'callstacks_request_rests_on_ir is about the hand-written copy Spec/PyIRCsExpected of the IR of callstacks() / '
            'CallstacksParser; that the copy is what tools/gen_pyir.py generates from the working tree is an obligation of C15',
-           'the version-2 container parser is replaced in the model by its result (thread map + records; C02)']
+           'the version-2 container parser is replaced in the model by its result (thread map + records; C02)',
+           'the command-line glue in front of traces() / callstacks() / os_log_events() - the callbacks traces / callstacks / logs of '
+           '__main__.py with their option declarations, print_with_count, PyKdebugParser.__init__, formatted_traces / _callstacks / '
+           '_logs - is tied to the SOURCE TEXT by translation (tools/gen_pyir_cli.py -> Gen/PyIRCli, cli_source_is_expected_ir, '
+           'traces_command_ir_eq_model, traces_command_ir_eq_e2e, callstacks_command_ir_eq_model, logs_command_ir_eq_model, '
+           'formatted_traces / _callstacks / _logs _ir_eq_model); trusted for that: that translator, the interpreter Model/PyIRCli '
+           '(sections cli-glue / cli-decls / cli-init / cli-formatted / cli-pwc-raise test them against click / CPython) and click\'s '
+           'parsing of the command line']
 ASSUMPTIONS = ['a request\'s generator is consumed to its end (or to the exception): the generators are lazy, an unconsumed '
                'request does nothing',
                'version-2 dumps: the thread map of the header resets both lookup tables at the start of every request',
@@ -690,6 +697,8 @@ def correspondence(rep, rng, tier):
                 kind_fn=lambda c, g: 'fc=%s fs=%s' % (c['cfg']['classes'], c['cfg']['subclasses']),
                 rule='finding stream (outside the claim): a subclass of DBG_TRACE, or of DBG_FSYSTEM next to a BSD request, '
                      'requested without its class')
+    from .. import cliir
+    cliir.section(rep, rng, tier, 'C13', commands=('traces', 'callstacks', 'logs'))   # the glue in front of traces() / callstacks() / logs
 
 
 SECTIONS = ('trace-filters', 'trace-requests', 'traces-ir', 'trace-filters-K3', 'trace-filters-helper-subclass')
@@ -702,6 +711,9 @@ def replay(path):
         print(json.dumps(r, indent=1)[:4000])
         return 1
     case = r['replay']['case']
+    if r['replay'].get('section') in ('cli-glue', 'cli-pwc-raise', 'cli-decls', 'cli-init', 'cli-formatted'):
+        from .. import cliir
+        return cliir.replay(r['replay'], 'C13', path)
     if r['replay'].get('section') == 'trace-lazy-requests':
         bad = 0
         print('filters:', case['cfg'], ' class lists:', case['lists'], ' shape:', case['shape'])
@@ -761,7 +773,14 @@ LEVEL_TEXT = ('Lean theorems over the object-state model of PyKdebugParser.trace
               'model); callstacks_request_rests_on_ir (the request model TracePipeline.callstacks - image lists reset, then '
               'callstackFeed - is the IR of PyKdebugParser.callstacks + CallstacksParser of Spec/PyIRCsExpected, interpreted on '
               'the trace objects of the traces model; that this IR is the one generated from the source is '
-              'C15.source_is_expected_ir, rebuilt by the C15 check).')
+              'C15.source_is_expected_ir, rebuilt by the C15 check).  '
+              'The command-line glue in front, translated as well (tools/gen_pyir_cli.py -> Gen/PyIRCli, Model/PyIRCli): '
+              'cli_source_is_expected_ir, traces_command_ir_eq_model (every combination of the seven options: the object handed to '
+              'formatted_traces reads as exactly configOf / showOf / colour of the options in force, declared defaults included, the '
+              'two lists as fresh lists; printed through print_with_count), traces_command_ir_eq_e2e (--no-color: = print_with_count of '
+              'EndToEnd.formattedTraces under configOf, for every byte string), callstacks_command_ir_eq_model, '
+              'logs_command_ir_eq_model, formatted_traces / formatted_callstacks / formatted_logs _ir_eq_model (map of the builder over '
+              'the listing, code table handed on as given, same exception).')
 LEVEL_NOTE = ('traces_commute_class compares handler, first record, payload, text and decoded fields (not the event list, which '
               'loses the records of other classes; not thread-terminate\'s text: K3b) and assumes a code table closed under the '
               'filter (checked for the bundled table at run time).  The process filter commutes only under an explicit '
@@ -769,6 +788,9 @@ LEVEL_NOTE = ('traces_commute_class compares handler, first record, payload, tex
               'subclasses of the helper classes (K13).  Translation tie: trusted are the translator tools/gen_pyir_fl.py and the '
               'interpreter Model/PyIRFl (tested against CPython by the section traces-ir); TracesParser and the container parser '
               'stay hand-modelled; callstacks() is tied through C15 (tools/gen_pyir.py, Model/PyIRCs; this check does not rebuild '
-              'that translation, so a change of callstacks_parser.py alone never breaks an obligation here).')
+              'that translation, so a change of callstacks_parser.py alone never breaks an obligation here).  '
+              'Glue: trusted are tools/gen_pyir_cli.py, the interpreter Model/PyIRCli and click\'s own '
+              'parsing; the meaning of formatted_traces / _callstacks / _logs is a parameter of the command theorems (instantiated with '
+              'EndToEnd.formattedTraces for --no-color).')
 TECHNIQUE = ('Lean 4 proofs over an explicit object-state model + translation validation of traces() / _filter_process_callback '
              '+ differential correspondence + oracle computed on the real code')
